@@ -2,8 +2,11 @@
 # run every registered check (quick by default) on /repo's current tree; prints one status line per check
 cd "$(dirname "$0")/.."
 TIER=${1:-quick}
+shift
+IDS="$@"
+[ -z "$IDS" ] && IDS=$(python3 -c "import json; print(' '.join(c['property_id'] for c in json.load(open('MANIFEST.json'))['checks']))")
 rm -rf evidence/replay
-for id in $(python3 -c "import json; print(' '.join(c['property_id'] for c in json.load(open('MANIFEST.json'))['checks']))"); do
+for id in $IDS; do
   s=$(date +%s)
   ./check $id --tier $TIER > /tmp/verif_run_$id.log 2>&1; rc=$?
   e=$(date +%s)
